@@ -64,6 +64,7 @@ def main():
     extra_decl = []
     i = 0
     done = set()
+    renamed = {}
     while i < len(lines):
         line = lines[i]
         if line.startswith('define') or line.startswith('declare'):
@@ -87,7 +88,12 @@ def main():
                 ps = ', '.join('%s %%p%d' % (tstr(t), k) for k, (t, n, at) in enumerate(f.params))
                 if f.vararg:
                     raise IRError('cannot forward vararg function %s' % f.name)
-                hdr = 'define %s %s(%s) {' % (tstr(f.ret), gref(f.name), ps)
+                defname = f.name
+                if not is_def:
+                    # a library function (malloc, read, ...): never redefine the symbol natively, redirect the call sites
+                    defname = f.name + '.ir2cstub'
+                    renamed[f.name] = defname
+                hdr = 'define %s %s(%s) {' % (tstr(f.ret), gref(defname), ps)
                 body = []
                 if tgt == '!noop':
                     body.append('  ret void' if f.ret == ('void',) else '  ret %s %s' % (tstr(f.ret), zero(f.ret)))
@@ -159,7 +165,10 @@ def main():
         nm = re.search(r'@([\w.]+)\(', d).group(1)
         if nm not in declared:
             out.append(d)
-    open(a.o, 'w').write('\n'.join(out))
+    text_out = '\n'.join(out)
+    for old, new in renamed.items():
+        text_out = re.sub(r'@%s(?=[(, )])' % re.escape(old), lambda m: gref(new), text_out)
+    open(a.o, 'w').write(text_out)
 
 
 if __name__ == '__main__':
